@@ -28,6 +28,8 @@ func c10Extra(c *Ctx) {
 	c10ImportKindBlind(c)
 	c10AddNotTargetGated(c)
 	c10c11TargetPaths(c)
+	c10NodeAlwaysConsidered(c)
+	c10TrackerTracksAll(c)
 	ruleFilteredPreferred(c, "TARGETS-PREFERRED", pk, 1)
 	ruleDelegateErr(c, "DELEGATE-ERR", []*packages.Package{pk})
 	// (b) owner loop
